@@ -290,7 +290,7 @@ func runC07(r *ev.Run, rep *ev.ReplayDoc) ev.Summary {
 			"credentials are unique 16-18 character random strings; searched raw, base64 (3 alphabets), hex, and inside every base64 token of the cleartext",
 		},
 		Floors:     []ev.Floor{{Counter: "sessions", Min: 500}, {Counter: "sessions_encrypted", Min: 100}, {Counter: "bad_handshakes_observed", Min: 60}, {Counter: "cleartext_lines_scanned", Min: 1000}, {Counter: "password_in_clear_permitted", Min: 10}},
-		Exhaustive: true,
+		Exhaustive: r.Thorough(),
 	}
 	if rep != nil {
 		var c c07Case
